@@ -7,6 +7,7 @@ use crate::engine::{Args, Ctx, ReplayDoc};
 pub mod c13;
 pub mod c13b;
 pub mod c14;
+pub mod c17;
 pub mod c18;
 pub mod c18b;
 pub mod c19;
@@ -38,6 +39,7 @@ pub fn run(args: &Args) -> ! {
         "C18" => c18::run(args),
         "C03" => c03::run(args),
         "C02" => c02::run(args),
+        "C17" => c17::run(args),
         p => {
             eprintln!("INFRA: unknown property '{}'", p);
             std::process::exit(2)
@@ -73,6 +75,7 @@ pub fn replay_one(ctx: &Ctx, doc: &ReplayDoc) {
         "C18" => c18::replay_one(ctx, doc),
         "C03" => c03::replay_one(ctx, doc),
         "C02" => c02::replay_one(ctx, doc),
+        "C17" => c17::replay_one(ctx, doc),
         p => ctx.infra_error(format!("unknown property '{}' in replay file", p)),
     }
 }
